@@ -130,6 +130,30 @@ static int listenEphemeral(std::uint16_t &port)
   port = ntohs(a.sin_port);
   return fd;
 }
+// The engine under test binds its listeners with SO_REUSEPORT: two servers of parallel driver processes that happened to
+// pick the same port would SHARE it and steal each other's connections.  So the port is reserved for the life of the
+// process: a socket bound (never listening) to a kernel-chosen free port with SO_REUSEPORT set - the server may bind next
+// to it, the kernel hands the port to no other automatic bind, and only listening sockets receive connections.
+static int reservePort(std::uint16_t &port)
+{
+  int fd = socket(AF_INET, SOCK_STREAM, 0);
+  int one = 1;
+  setsockopt(fd, SOL_SOCKET, SO_REUSEADDR, &one, sizeof one);
+  setsockopt(fd, SOL_SOCKET, SO_REUSEPORT, &one, sizeof one);
+  sockaddr_in a{};
+  a.sin_family = AF_INET;
+  a.sin_addr.s_addr = htonl(INADDR_LOOPBACK);
+  a.sin_port = 0;
+  if (bind(fd, (sockaddr *)&a, sizeof a) != 0)
+  {
+    close(fd);
+    return -1;
+  }
+  socklen_t sl = sizeof a;
+  getsockname(fd, (sockaddr *)&a, &sl);
+  port = ntohs(a.sin_port);
+  return fd;
+}
 static int connectTo(std::uint16_t port)
 {
   int fd = socket(AF_INET, SOCK_STREAM, 0);
@@ -309,7 +333,7 @@ static Obs *curObs() { return g_obs.load(); }
 static void setObs(Obs *o) { g_obs.store(o); }
 
 // read the endpoint's frames from the harness side of the socket until the sentinel / EOF / timeout
-static void drain(int fd, Bytes &rbuf, Obs &o, int timeoutMs = 5000)
+static void drain(int fd, Bytes &rbuf, Obs &o, int timeoutMs = 20000)
 {
   for (;;)
   {
@@ -371,6 +395,7 @@ struct ServerRig
 {
   std::unique_ptr<VServer> srv;
   std::uint16_t port = 0;
+  int reserveFd = -1;
   std::mutex m;
   std::condition_variable cv;
   std::vector<SessionId> connected;
@@ -382,9 +407,8 @@ struct ServerRig
     for (int attempt = 0; attempt < 20; ++attempt)
     {
       std::uint16_t p = 0;
-      int fd = listenEphemeral(p);
+      int fd = reservePort(p);
       if (fd < 0) continue;
-      close(fd);
       try
       {
         srv.reset(new VServer("127.0.0.1", p));
@@ -419,17 +443,22 @@ struct ServerRig
           });
         srv->start();
         port = p;
+        reserveFd = fd; // kept open until the process exits
         return true;
       }
       catch (...)
       {
         srv.reset();
+        close(fd);
       }
     }
     return false;
   }
   // open one upgraded connection; returns fd (or -1) and the server side session id
-  int open(SessionId &sid, bool &acceptOk, std::string &why)
+  // glued: bytes sent in the SAME write as the upgrade request (the server finds them behind the request in its HTTP
+  // buffer and hands them to the upgraded protocol after the 101: http_server.hpp "buffer-drain"); what the server sends
+  // behind the 101 is returned in `after`
+  int open(SessionId &sid, bool &acceptOk, std::string &why, const Bytes *glued = nullptr, Bytes *after = nullptr)
   {
     int fd = connectTo(port);
     if (fd < 0)
@@ -443,7 +472,9 @@ struct ServerRig
     }
     static const char req[] = "GET /ws HTTP/1.1\r\nHost: 127.0.0.1\r\nUpgrade: websocket\r\nConnection: Upgrade\r\n"
                               "Sec-WebSocket-Key: dGhlIHNhbXBsZSBub25jZQ==\r\nSec-WebSocket-Version: 13\r\n\r\n";
-    if (!sendAll(fd, req, sizeof req - 1))
+    Bytes first(req, req + sizeof req - 1);
+    if (glued) first.insert(first.end(), glued->begin(), glued->end());
+    if (!sendAll(fd, first.data(), first.size()))
     {
       why = "send";
       close(fd);
@@ -455,7 +486,7 @@ struct ServerRig
     {
       head.assign(rb.begin(), rb.end());
       if (head.find("\r\n\r\n") != std::string::npos) break;
-      int k = readMore(fd, rb, 5000);
+      int k = readMore(fd, rb, 30000);
       if (k <= 0)
       {
         why = "no 101";
@@ -463,10 +494,12 @@ struct ServerRig
         return -1;
       }
     }
+    std::size_t hend = head.find("\r\n\r\n") + 4;
     acceptOk = head.rfind("HTTP/1.1 101", 0) == 0 && head.find("s3pPLMBiTxaQ9kYGzzhZRbK+xOo=") != std::string::npos &&
-               head.size() == head.find("\r\n\r\n") + 4;
+               (head.size() == hend || glued != nullptr);
+    if (after) after->assign(rb.begin() + hend, rb.end());
     std::unique_lock<std::mutex> lk(m);
-    if (!cv.wait_for(lk, std::chrono::seconds(5), [this] { return !connected.empty(); }))
+    if (!cv.wait_for(lk, std::chrono::seconds(30), [this] { return !connected.empty(); }))
     {
       why = "no onConnect";
       close(fd);
@@ -557,7 +590,7 @@ struct ClientRig
       [&]
       {
         pollfd pf{lfd, POLLIN, 0};
-        if (poll(&pf, 1, 5000) <= 0)
+        if (poll(&pf, 1, 30000) <= 0)
         {
           herr = "accept timeout";
           return;
@@ -576,7 +609,7 @@ struct ClientRig
         {
           head.assign(rb.begin(), rb.end());
           if (head.find("\r\n\r\n") != std::string::npos) break;
-          if (readMore(fd, rb, 5000) <= 0)
+          if (readMore(fd, rb, 30000) <= 0)
           {
             herr = "no upgrade request";
             return;
@@ -597,7 +630,7 @@ struct ClientRig
       });
     WebSocketClient::Options opt;
     hasMax = setClientMax(opt, maxMsg, 0);
-    bool ok = cl->connect("127.0.0.1", port, "/ws", opt, std::chrono::milliseconds(8000));
+    bool ok = cl->connect("127.0.0.1", port, "/ws", opt, std::chrono::milliseconds(30000));
     peer.join();
     if (!ok || !herr.empty())
     {
